@@ -291,6 +291,8 @@ pub enum Mark {
     PlainBlockKey { start: usize, end: usize },
     /// a plain scalar inside a flow collection; `parent` = indentation of the enclosing block construct
     FlowPlain { start: usize, end: usize, parent: isize },
+    /// a quoted scalar (with its quotes) inside a flow collection
+    FlowQuoted { start: usize, end: usize, parent: isize },
 }
 
 pub struct R<'a> {
@@ -422,6 +424,9 @@ impl<'a> R<'a> {
                 self.scalar_text(s, *st);
                 if *st == 0 && !s.is_empty() && !self.flow_parent.is_empty() {
                     self.marks.push(Mark::FlowPlain { start: from, end: self.out.len(), parent: n });
+                }
+                if (*st == 1 || *st == 2) && !self.flow_parent.is_empty() {
+                    self.marks.push(Mark::FlowQuoted { start: from, end: self.out.len(), parent: n });
                 }
             }
             N::Alias(i) => self.out.push_str(&format!("*a{i}")),
